@@ -319,3 +319,24 @@ def streams(tier, rng):
                describe="hx-select-e2e --bench '^hx_select_e2e::opt' with the runner level set by flags / DIVAN_* / builder calls; "
                         "per benchmark: (ignored) mark, t=N branches, samples and iters columns, throughput lines, RAN call count"),
     ]
+
+
+MANIFEST = {
+    "text": "Coq theorems, for every nesting depth and every field (sample_count, sample_size, threads, min_time, max_time, "
+            "skip_ext_time, ignore, each of the four counter kinds): the effective value is the first set value in [runner; benchmark; "
+            "innermost group; ...; outermost group], else the default (C15_resolution), overwrite is field-wise Option::or, the effective "
+            "value of a field depends on that field's values only and changing another field at any level never changes it; the Bencher "
+            "starts with the resolved count per kind and Bencher::counter replaces its own kind only; the thread counts run are strictly "
+            "increasing, non-empty, never 0 and exactly the requested ones with 0 mapped to the available parallelism; a benchmark is "
+            "skipped iff its effective ignore is true (no flag), never (--include-ignored), iff it is false (--ignored); the runner level "
+            "is 'builder call after parsing, flag, DIVAN_* variable, builder call before parsing' per field. Tied to the code by "
+            "differential runs of BenchOptions::overwrite chains (+ a real Bencher for the counters), IntoThreads, and by running a real "
+            "#[divan::bench] binary in bench mode with the runner level set through flags, environment and builder calls.",
+    "note": "Trusted: Coq kernel, extraction, OCaml driver, hooks (options_overwrite, options_counter, run_bencher), harness hx-select "
+            "(its ovw mode re-implements the two small matches of run_tree/run_bench_entry around the real overwrite; the real descent is "
+            "covered end to end), the hand-mirrored option table of the e2e binary, C03's samples formula for turning effective options "
+            "into visible numbers, clap's flag-over-environment precedence (modelled as assumed, exercised end to end). min_time and "
+            "skip_ext_time are checked at function level only (not observable end to end without timing).",
+    "technique": "machine-checked proof in Coq (induction over the option stack with a field-wise homomorphism lemma, insertion-sort/dedup "
+                 "lemmas) + differential correspondence + end-to-end runs of a real benchmark binary",
+}
